@@ -317,8 +317,13 @@ func runGsm7(c Case, tr *Tracer) {
 	case "text":
 		text := scalarsToString(c["text"])
 		sc := scalars(text)
-		enc, err := gsm7.Encode(text)
-		tr.emit(Ev{"ev": "Enc", "text": sc, "out": B(enc), "err": err != nil, "site": "Encode"})
+		var enc []byte
+		var err error
+		if guard(func() { enc, err = gsm7.Encode(text) }) {
+			tr.emit(Ev{"ev": "Enc", "text": sc, "out": []int{-1}, "err": false, "site": "Encode.panic"})
+		} else {
+			tr.emit(Ev{"ev": "Enc", "text": sc, "out": B(enc), "err": err != nil, "site": "Encode"})
+		}
 		out, _, err2 := transform.Bytes(gsm7.GSM7(false).NewEncoder(), []byte(text))
 		if err2 != nil {
 			out = nil
@@ -382,14 +387,27 @@ func runGsm7(c Case, tr *Tracer) {
 		for b := 0; b < 256; b++ {
 			s := []byte{a, byte(b)}
 			v := 0
-			if _, err := gsm7.Decode(s); err != nil {
-				v |= 1
+			// (a panic is neither an answer nor a refusal: bit 3)
+			if guard(func() {
+				if _, err := gsm7.Decode(s); err != nil {
+					v |= 1
+				}
+			}) {
+				v |= 8
 			}
-			if len(gsm7.ValidateGSM7Buffer(s)) != 0 {
-				v |= 2
+			if guard(func() {
+				if len(gsm7.ValidateGSM7Buffer(s)) != 0 {
+					v |= 2
+				}
+			}) {
+				v |= 8
 			}
-			if _, err := datacoding.GSM7Unpacked(s).Decode(); err != nil {
-				v |= 4
+			if guard(func() {
+				if _, err := datacoding.GSM7Unpacked(s).Decode(); err != nil {
+					v |= 4
+				}
+			}) {
+				v |= 8
 			}
 			row[b] = v
 		}
@@ -416,7 +434,16 @@ func runGsm7(c Case, tr *Tracer) {
 
 // classifyCP runs one code point through every encoding entry point.
 // Only equalities between real-code values are evaluated here.
-func classifyCP(cp rune) string {
+func classifyCP(cp rune) (class string) {
+	defer func() {
+		if recover() != nil {
+			class = "PANIC"
+		}
+	}()
+	return classifyCP1(cp)
+}
+
+func classifyCP1(cp rune) string {
 	if cp >= 0xD800 && cp <= 0xDFFF {
 		// not a scalar value: string(rune) yields U+FFFD, which must be refused
 		cp = utf8.RuneError
